@@ -538,6 +538,8 @@ func checkC09(r *Run) {
 	// every call re-arms the deadline of the shared connection (a caller without a deadline must not inherit the
 	// expired deadline of an earlier caller)
 	ioDeadlineArmed(r, "io-deadline")
+	// each caller's frame carries that caller's message: the marshalled bytes are not shared between calls
+	c01MarshalFresh(r)
 	// "… and all of them complete", "up to the documented wire limits": one caller's failed request write must not
 	// end the owner loop for the others (rule shared with C12); a frame of exactly msize — what a clipped write
 	// or a full read produces — is accepted by the receiving channel (rules shared with C03)
